@@ -1,8 +1,8 @@
 //! Division conventions, modpow / modinv, roots, gcd family, work counter.
 use crate::util::*;
-use num_bigint::{BigInt, BigUint};
+use num_bigint::{BigInt, BigUint, Sign};
 use num_integer::{Integer, Roots};
-use num_traits::{CheckedDiv, CheckedEuclid, Euclid};
+use num_traits::{CheckedDiv, CheckedEuclid, CheckedMul, Euclid, Pow};
 
 #[cfg(num_bigint_verif)]
 fn set_budget(n: u64) {
@@ -206,6 +206,39 @@ pub fn run(op: &str, t: &[&str], v: &[Val], out: &mut Out) -> bool {
             #[cfg(num_bigint_verif)]
             let w0 = num_bigint::verif_probe::work();
             let p = guard(|| { x *= b; x });
+            #[cfg(num_bigint_verif)]
+            let w1 = num_bigint::verif_probe::work();
+            #[cfg(not(num_bigint_verif))]
+            let (w0, w1) = (0u64, 0u64);
+            out.push(&format!("n{}", w1 - w0));
+            match p {
+                Some(p) => out.push(&digest_u(&p)),
+                None => out.push("P"),
+            }
+        }
+        // workf <form> A B : the same product requested through another public route, work + digest of the magnitude
+        "workf" => {
+            let (a, b) = (v[2].u(), v[3].u());
+            let form = t[1];
+            let (ac, bc) = (a.clone(), b.clone());
+            let (ai, bi) = (BigInt::from_biguint(Sign::Minus, a.clone()), BigInt::from_biguint(Sign::Plus, b.clone()));
+            #[cfg(num_bigint_verif)]
+            let w0 = num_bigint::verif_probe::work();
+            let p: Option<BigUint> = guard(move || match form {
+                "vv" => ac * bc,
+                "vr" => ac * &bc,
+                "rv" => &ac * bc,
+                "chk" => ac.checked_mul(&bc).unwrap(),
+                "int" => (&ai * &bi).magnitude().clone(),
+                "intas" => { let mut x = ai; x *= bi; x.magnitude().clone() }
+                "prod" => [ac, bc].iter().product::<BigUint>(),
+                "prodv" => vec![ac, bc].into_iter().product::<BigUint>(),
+                "pow2" => Pow::pow(&ac, 2u32),
+                "pow2v" => ac.pow(2u32),
+                "powb2" => Pow::pow(&ac, &BigUint::from(2u32)),
+                "ipow2" => Pow::pow(&ai, 2u8).magnitude().clone(),
+                _ => panic!("bad form"),
+            });
             #[cfg(num_bigint_verif)]
             let w1 = num_bigint::verif_probe::work();
             #[cfg(not(num_bigint_verif))]
